@@ -50,6 +50,9 @@ KERNEL_CONS = [
     ("FxRemoveResumeFromTarget", ""),       # self.process._target.callbacks.remove(self.process._resume)
     ("FxResumeProcess", ""),                # self.process._resume(self)
     ("FxNewInterruption", ""),              # Interruption(self, cause)
+    # StopSimulation.callback
+    ("FxRaiseStopValue", ""),               # raise cls(event.value)
+    ("FxRaiseEventValue", ""),              # raise event._value
 ]
 
 STEP_TRY = """try:
@@ -105,6 +108,8 @@ KERNEL_FX = [
     ("self.process._target.callbacks.remove(self.process._resume)", "FxRemoveResumeFromTarget", []),
     ("self.process._resume(self)", "FxResumeProcess", []),
     ("Interruption(self, cause)", "FxNewInterruption", []),
+    ("raise cls(event.value)", "FxRaiseStopValue", []),
+    ("raise event._value", "FxRaiseEventValue", []),
 ]
 
 
@@ -137,6 +142,7 @@ def _specs(repo):
            ("process is self.env.active_process", "process_is_active", "bool")], name="gen_Interruption_init"),
         S(ev, "Interruption", "_interrupt", [("self.process.triggered", "process_triggered", "bool")]),
         S(ev, "Process", "interrupt"),
+        S(core, "StopSimulation", "callback", [("event.ok", "ok", "bool")], decorator="classmethod"),
     ]
 
 
@@ -150,3 +156,46 @@ def extracted_kernel(repo):
 def write_extracted_kernel(repo, coq_dir):
     from vlib import translate as tr
     return tr.write_if_changed(os.path.join(coq_dir, "Gen", "Extracted_kernel.v"), extracted_kernel(repo))
+
+
+# ------------------------------------------------------------------------------------------------
+# Conditions (C05): Condition.all_events / any_events / _check / _build_value -> coq/Gen/Extracted_cond.v, bridged to
+# cond_evaluate / cond_check / cond_build of Kernel/Model.v by coq/Kernel/CondLeafBridge.v; obligations in Props/C05_Bridge.v.
+# Condition.__init__, _populate_value and _remove_check_callbacks are loops over the operands: not translated (the latter
+# two are effects of _build_value whose meaning is the model's remove_checks / populate).
+
+COND_CONS = [("FxDefuseOperand", ""),        # event._defused = True
+             ("FxFailWithOperandValue", ""), # self.fail(event._value)
+             ("FxSucceed", ""),              # self.succeed()
+             ("FxRemoveChecks", ""),         # self._remove_check_callbacks()
+             ("FxNewValue", ""),             # self._value = ConditionValue()
+             ("FxPopulate", "")]             # self._populate_value(self._value)
+COND_FX = [("event._defused = True", "FxDefuseOperand", []),
+           ("self.fail(event._value)", "FxFailWithOperandValue", []),
+           ("self.succeed()", "FxSucceed", []),
+           ("self._remove_check_callbacks()", "FxRemoveChecks", []),
+           ("self._value = ConditionValue()", "FxNewValue", []),
+           ("self._populate_value(self._value)", "FxPopulate", [])]
+
+
+def extracted_cond(repo):
+    from vlib import translate as tr
+    ev = os.path.join(repo, "onl", "sim", "events.py")
+    ev_reads = [("events", "n_events", "len"), ("count", "count", "Z")]
+    specs = [
+        tr.FnSpec(ev, "Condition", "all_events", "gen_Condition_all_events", reads=ev_reads, ret="bool", decorator="staticmethod"),
+        tr.FnSpec(ev, "Condition", "any_events", "gen_Condition_any_events", reads=ev_reads, ret="bool", decorator="staticmethod"),
+        tr.FnSpec(ev, "Condition", "_check", "gen_Condition_check",
+                  reads=[("self._value is not PENDING", "triggered", "bool"), ("event._ok", "operand_ok", "bool"),
+                         # self._evaluate(self._events, self._count) with the count as it is after `self._count += 1`
+                         ("self._evaluate(self._events, self._count)", "met", "bool")],
+                  effects=COND_FX),
+        tr.FnSpec(ev, "Condition", "_build_value", "gen_Condition_build_value", reads=[("event._ok", "ok", "bool")], effects=COND_FX),
+    ]
+    return tr.gen_module("onl/sim/events.py: Condition.all_events, any_events, _check, _build_value", "cond_st", "c_", [("_count", "Z")],
+                         "cond_fx", COND_CONS, specs)
+
+
+def write_extracted_cond(repo, coq_dir):
+    from vlib import translate as tr
+    return tr.write_if_changed(os.path.join(coq_dir, "Gen", "Extracted_cond.v"), extracted_cond(repo))
